@@ -21,6 +21,7 @@ package main
 import (
 	"encoding/hex"
 	"fmt"
+	"os"
 	"regexp"
 	"strconv"
 	"strings"
@@ -121,13 +122,18 @@ func colorize(mode, src string) (out string) {
 // ---------------------------------------------------------------- oracle 2
 
 // what the lexer may skip between tokens: blanks, line comments, nested block comments
-func gapOK(g string) bool {
+// underscore: the gap lies inside a \x[ / \b[ style collection, where the lexer drops a lone '_'
+// (recorded as note=underscore-gap, not a violation of the property)
+func gapOK(g string, underscore bool, usedUnderscore *bool) bool {
 	i := 0
 	n := len(g)
 	for i < n {
 		r, sz := utf8.DecodeRuneInString(g[i:])
 		switch {
 		case unicode.IsSpace(r):
+			i += sz
+		case r == '_' && underscore:
+			*usedUnderscore = true
 			i += sz
 		case strings.HasPrefix(g[i:], "#[") || strings.HasPrefix(g[i:], "/*"):
 			open, cl := "#[", "]#"
@@ -174,12 +180,26 @@ func recount(src string, n int) (line, col int) {
 	return
 }
 
-func oracle2(mode, src string, toks []tokRec, end string, colHex string) string {
+var intCollBeg = regexp.MustCompile(`^[\\%^][xb]\[$`)
+
+func oracle2(mode, src string, toks []tokRec, end string, colHex string) (verdict string, note string) {
+	verdict = oracle2v(mode, src, toks, end, colHex, &note)
+	return
+}
+
+func oracle2v(mode, src string, toks []tokRec, end string, colHex string, note *string) string {
 	if end != "eof" {
 		return "end:" + strings.Fields(end)[0]
 	}
 	var b strings.Builder
 	prev := 0
+	inIntColl := false
+	used := false
+	defer func() {
+		if used {
+			*note = "underscore-gap"
+		}
+	}()
 	for i, t := range toks {
 		if t.start < prev {
 			return fmt.Sprintf("overlap@%d", i)
@@ -188,8 +208,11 @@ func oracle2(mode, src string, toks []tokRec, end string, colHex string) string 
 			return fmt.Sprintf("range@%d", i)
 		}
 		g := src[prev:t.start]
-		if !gapOK(g) {
+		if !gapOK(g, inIntColl, &used) {
 			return fmt.Sprintf("gap@%d", i)
+		}
+		if intCollBeg.MatchString(t.typ) {
+			inIntColl = true
 		}
 		b.WriteString(g)
 		b.WriteString(src[t.start : t.end+1])
@@ -206,7 +229,7 @@ func oracle2(mode, src string, toks []tokRec, end string, colHex string) string 
 			return fmt.Sprintf("endpos@%d", i)
 		}
 	}
-	if !gapOK(src[prev:]) {
+	if !gapOK(src[prev:], inIntColl, &used) {
 		return "gap@end"
 	}
 	b.WriteString(src[prev:])
@@ -227,12 +250,21 @@ func oracle2(mode, src string, toks []tokRec, end string, colHex string) string 
 func runCase(mode, src string) (oracle string, observed string) {
 	toks, end := lexAll(mode, src)
 	col := colorize(mode, src)
+	for _, t := range toks {
+		if strings.HasPrefix(t.params, "?") && end == "eof" {
+			end = "badwrap" // fatih/color did not produce ESC[<params>m ... ESC[0m
+		}
+	}
 	parts := make([]string, len(toks))
 	for i, t := range toks {
 		parts[i] = fmt.Sprintf("%d,%d,%d,%d,%d,%d,%s,%s", t.start, t.end, t.line, t.col, t.eline, t.ecol, t.params, t.typ)
 	}
 	oracle = "toks=" + strings.Join(parts, "/")
-	observed = fmt.Sprintf("n=%d;end=%s;col=%s;o2=%s", len(toks), end, col, oracle2(mode, src, toks, end, col))
+	v, note := oracle2(mode, src, toks, end, col)
+	observed = fmt.Sprintf("n=%d;end=%s;col=%s;o2=%s", len(toks), end, col, v)
+	if note != "" {
+		observed += ";note=" + note
+	}
 	return
 }
 
@@ -568,7 +600,8 @@ func parseInput(in string) (mode, src string) {
 func main() {
 	o := hx.ParseFlags()
 	defer hx.Flush()
-	color.NoColor = false // force the escapes: the harness has no terminal
+	os.Unsetenv("NO_COLOR") // color.New consults it on every call
+	color.NoColor = false   // force the escapes: the harness has no terminal
 	emit := func(id, mode, src string) {
 		orc, obs := runCase(mode, src)
 		hx.Emit(id, "m="+mode+" s="+s2hx(src)+" | "+orc, obs)
